@@ -90,6 +90,19 @@ def monotone(cname, t, sym_pre, full_to):
     return fn
 
 
+def solver_section(cname):
+    """pseudo-inverse branch: one symbolic run of the diffusivity; states the conformance of the bias solver with its contract
+    (exact Moore-Penrose inverse); a truncating call is decided by the replay (monotonicity in low-rate regimes)"""
+    def fn(src=None):
+        crys, calc, jn = inter.get_calc(cname)
+        inp = inter.Inputs(calc, sym_pre=False)
+        inter.run_diffusivity(calc, inp)
+        info = {'inputs': inp.inputs, 'extra': {'crystal': cname}}
+        obs = inter.solver_conformance('solver:' + cname, info, calc)
+        return obs
+    return fn
+
+
 def replay(rec):
     e = rec['extra']
     return harness.run_laws_concrete(monotone(e['crystal'], e['t'], e['sym_pre'], 0), rec)
@@ -109,6 +122,8 @@ def sections(tier):
         for t in range(len(jn)):
             secs.append(S('mono:%s:T%d' % (cname, t), monotone(cname, t, sp, full if cname in ('X2', 'X2b', 'X3') or tier != 'quick' else 0),
                           timeout_ms=to, budget_s=bud, replayer='mono', config=cname, maxpaths=16))
+    for cname in (('X2',) if tier == 'quick' else ('X2', 'X5')):
+        secs.append(S('solver:' + cname, solver_section(cname), timeout_ms=20000, budget_s=bud, replayer='stress', config=cname, maxpaths=8))
     return secs
 
 
@@ -116,7 +131,7 @@ def main():
     import warnings
     warnings.simplefilter('ignore')
     if REPLAY:
-        run.replay_main('C05', {'mono': replay})
+        run.replay_main('C05', {'mono': replay, 'stress': lambda rec: inter.stress_monotone(inter.get_calc(rec['extra']['crystal'])[1])})
     I = OnsagerCalc.Interstitial
     chk = run.Check(
         'C05',
